@@ -298,6 +298,11 @@ impl Ctx {
                 r.text = Some(serde_json::json!({"files": files, "blocks": blocks}).to_string());
                 r
             }
+            OpKind::RemoveFile { path } => {
+                let mut r = ok_res();
+                r.flag = Some(std::fs::remove_file(path).is_ok());
+                r
+            }
             OpKind::ListDir { dir } => {
                 let mut names: Vec<(String, u64)> = Vec::new();
                 if let Ok(rd) = std::fs::read_dir(dir) {
